@@ -1,6 +1,7 @@
 package rules
 
 import (
+	"sort"
 	"fmt"
 	"go/token"
 	"go/types"
@@ -73,48 +74,75 @@ func c18Auth(c *Ctx) {
 		}
 		name := core.FuncName(fn)
 		c.R.SawFunc(name)
-		k := 0
-		for _, b := range fn.Blocks {
-			ret, ok := b.Instrs[len(b.Instrs)-1].(*ssa.Return)
-			if !ok {
-				continue
-			}
-			last := an.RetErr(ret)
-			if !an.IsNilConst(last) {
-				// a non-nil error, or the results of an authenticating call returned as they are
-				if ex, ok := last.(*ssa.Extract); ok {
-					if cl, ok := ex.Tuple.(*ssa.Call); ok && !(cl.Call.StaticCallee() != nil && auth[cl.Call.StaticCallee()]) && !an.IsErrorType(cl.Type()) {
-						// returning some other call's results: fine only if that error is an error
-					}
+		// typestate over feasible paths: "an authentication primitive answered true on this path".
+		// The primitive's boolean may be copied into a variable that is later narrowed (ok = false):
+		// the set of SSA values that carry the primitive's answer on the current path follows the phis.
+		h := an.THooks{}
+		h.Instr = func(in ssa.Instruction, st0 an.TState) an.TState {
+			st := st0.(authState)
+			switch x := in.(type) {
+			case *ssa.Call:
+				if isAuthPrimitive(x) && x.Call.Signature().Results().Len() == 1 {
+					st = st.with(x)
 				}
+				if cal := x.Call.StaticCallee(); cal != nil && auth[cal] {
+					st = st.delegate(x)
+				}
+			case *ssa.Extract:
+				if cl, ok := x.Tuple.(*ssa.Call); ok && isAuthPrimitive(cl) && x.Index == cl.Call.Signature().Results().Len()-1 {
+					st = st.with(x)
+				}
+			}
+			return st
+		}
+		h.Phi = func(ph *ssa.Phi, incoming ssa.Value, st0 an.TState) an.TState {
+			st := st0.(authState)
+			if st.carries(incoming) {
+				return st.with(ph)
+			}
+			return st.without(ph)
+		}
+		h.Branch = func(iff *ssa.If, side bool, st0 an.TState) an.TState {
+			st := st0.(authState)
+			cond, neg := an.StripNot(iff.Cond)
+			if st.carries(cond) && side != neg {
+				st.auth = true
+			}
+			return st
+		}
+		k := 0
+		seenRet := map[*ssa.Return]bool{}
+		badRet := map[*ssa.Return]bool{}
+		var order []*ssa.Return
+		for _, ex := range an.WalkTypestate(fn, authState{}, h, c.Scope(fn)) {
+			if ex.ErrNil == 0 {
+				continue // an error is returned
+			}
+			st := ex.St.(authState)
+			if !seenRet[ex.Ret] {
+				seenRet[ex.Ret] = true
+				order = append(order, ex.Ret)
+			}
+			if st.auth {
 				continue
 			}
+			// the results of an authenticating function returned as they are: its own obligation
+			delegated := false
+			if e, ok := an.RetErr(ex.Ret).(*ssa.Extract); ok {
+				if cl, ok := e.Tuple.(*ssa.Call); ok && st.delegated(cl) {
+					delegated = true
+				}
+			}
+			if !delegated {
+				badRet[ex.Ret] = true
+			}
+		}
+		sort.Slice(order, func(i, j int) bool { return order[i].Pos() < order[j].Pos() })
+		for _, ret := range order {
 			k++
 			n++
-			good := false
-			for _, call := range an.Calls(fn) {
-				switch {
-				case isAuthPrimitive(call):
-					// the boolean result (or its ok extract) must be true on the way here
-					var okv ssa.Value = call.Value()
-					if call.Common().Signature().Results().Len() > 1 {
-						for _, r := range *call.Value().Referrers() {
-							if ex, isEx := r.(*ssa.Extract); isEx && ex.Index == call.Common().Signature().Results().Len()-1 {
-								okv = ex
-							}
-						}
-					}
-					if an.GuardedByValue(an.Edge{From: b}, func(v ssa.Value) bool { return v == okv }, true) {
-						good = true
-					}
-				case call.Common().StaticCallee() != nil && auth[call.Common().StaticCallee()]:
-					if ok, _ := an.SuccessDominates(call, ret); ok {
-						good = true
-					}
-				}
-			}
-			c.R.Cond(good, rule, fmt.Sprintf("%s: nil-error return #%d", name, k), c.P.Pos(ret.Pos()),
-				"reached only after the authentication (secretbox.Open / poly1305.Verify / authenticating helper) succeeded",
+			c.R.Cond(!badRet[ret], rule, fmt.Sprintf("%s: nil-error return #%d", name, k), c.P.Pos(ret.Pos()),
+				"reached only on paths where the authentication (secretbox.Open / poly1305.Verify / authenticating helper) answered true",
 				"data can be returned as valid although no authentication succeeded on this path: a truncated or modified object, or a wrong passphrase, yields data instead of an error")
 		}
 	}
@@ -521,7 +549,8 @@ func c18Stateless(c *Ctx) {
 func init() {
 	register(&Rule{Name: "C18.key-from-passphrase", Min: 2, Run: c18KeyFromPassphrase,
 		Doc: "the encryptor's key is derived in the constructor from the passphrase bytes as given: the caller's slice is not retained, and nothing edits the bytes on their way into the KDF"})
-	byProp["C18"] = append(byProp["C18"], "C18.key-from-passphrase")
+	byProp["C18"] = append(byProp["C18"], "C18.key-from-passphrase", "C03.open-errors")
+	explain["C18"] += " (3) the key field is written nowhere outside the constructor (stores, copy/clear, and through pointers handed to repository functions): the encryptor is shared by all handles of a Config. open-errors (shared with C03): the Decrypt verdict on a version's top node surfaces in crdt.Load inside mergeRoots; it fails the open instead of skipping the version."
 	explain["C18"] += " key-from-passphrase: 'a different passphrase is reported as an error' needs the key to be an injective-looking function of the passphrase bytes, fixed when the encryptor is built. (1) In V1NodeEncryptor the passphrase parameter is only read — passed to functions / copy — never stored into the encryptor or captured by a closure: a key derived lazily from the caller's buffer depends on what the buffer holds later (a wiped buffer gives the all-zero passphrase's key). (2) In deriveKey the KDF input depends on the parameter through append / slicing / the fixed base64 encoding only, never through a bytes/strings/unicode transformation (trimming line ends makes different passphrases share a key and strands data written under the untrimmed one)."
 }
 
@@ -617,4 +646,266 @@ func c18KeyFromPassphrase(c *Ctx) {
 			c.R.Unk(rule, name+": KDF", c.P.Pos(dk.Pos()), "no call into golang.org/x/crypto found in deriveKey")
 		}
 	}
+	// (3) fixed at construction: nothing writes the key of an existing encryptor
+	c18KeyFixed(c, rule, ctor)
+}
+
+// c18KeyFixed: the key field of the encryptor is written nowhere outside the constructor — the
+// encryptor is shared (Config is copied by value, the interface holds a pointer) by every handle,
+// clone and history re-open made from one Config.
+func c18KeyFixed(c *Ctx, rule string, ctor *ssa.Function) {
+	keyF := mustField(c, "kv", "jencryptor", "key")
+	if keyF == nil {
+		return
+	}
+	var bad []string
+	nUses := 0
+	var follow func(v ssa.Value, fn *ssa.Function, d int)
+	seen := map[ssa.Value]bool{}
+	follow = func(v ssa.Value, fn *ssa.Function, d int) {
+		if seen[v] || d > 6 || v.Referrers() == nil {
+			return
+		}
+		seen[v] = true
+		for _, r := range *v.Referrers() {
+			switch x := r.(type) {
+			case *ssa.Store:
+				if x.Addr == v {
+					bad = append(bad, core.FuncName(fn)+" at "+c.P.Pos(x.Pos()))
+				}
+			case *ssa.IndexAddr:
+				follow(x, fn, d+1)
+			case *ssa.Slice:
+				follow(x, fn, d+1)
+			case *ssa.Phi:
+				follow(x, fn, d+1)
+			case *ssa.ChangeType:
+				follow(x, fn, d+1)
+			case ssa.CallInstruction:
+				cm := x.Common()
+				if bi, ok := cm.Value.(*ssa.Builtin); ok {
+					if (bi.Name() == "copy" || bi.Name() == "clear") && len(cm.Args) > 0 && cm.Args[0] == v {
+						bad = append(bad, core.FuncName(fn)+" at "+c.P.Pos(x.Pos())+" ("+bi.Name()+")")
+					}
+					continue
+				}
+				cal := cm.StaticCallee()
+				if cal == nil || !strings.HasPrefix(an.PkgPathOf(cal), core.ModPath) || len(cal.Blocks) == 0 {
+					continue // x/crypto and the standard library only read a key they are given
+				}
+				for i, a := range cm.Args {
+					if a == v && i < len(cal.Params) {
+						follow(cal.Params[i], cal, d+1)
+					}
+				}
+			}
+		}
+	}
+	for _, fn := range c.P.RepoFuncs(an.LibraryPkg) {
+		if fn == ctor || (fn.Parent() != nil && fn.Parent() == ctor) {
+			continue
+		}
+		for _, b := range fn.Blocks {
+			for _, in := range b.Instrs {
+				if fa, ok := in.(*ssa.FieldAddr); ok && an.FieldVar(fa.X.Type(), fa.Field) == keyF {
+					nUses++
+					follow(fa, fn, 0)
+				}
+			}
+		}
+	}
+	sort.Strings(bad)
+	if nUses < 2 {
+		c.R.Errorf("only %d uses of the encryptor's key outside the constructor (2 confirmed by hand: Encrypt, Decrypt)", nUses)
+	}
+	c.R.Cond(len(bad) == 0, rule, "kv.jencryptor: the key is fixed at construction", c.P.Pos(ctor.Pos()),
+		fmt.Sprintf("%d uses of the key outside the constructor, all of them reads", nUses),
+		"the key of an existing encryptor is written in "+strings.Join(bad, "; ")+": one *jencryptor is shared by every handle, clone and history re-open made from a Config, so the other handles go on sealing under the overwritten key (all-zero after a wipe) — anyone opens those objects, the real passphrase does not")
+}
+
+
+// authState: which SSA values carry an authentication primitive's answer on the current path, the
+// calls of authenticating helpers made, and whether a branch on a carrier was taken on its true side.
+type authState struct {
+	auth     bool
+	carriers string // sorted, comma-separated value names (path-specific set)
+	helpers  string
+}
+
+func (a authState) Key() string { return fmt.Sprintf("%v|%s|%s", a.auth, a.carriers, a.helpers) }
+
+func valueID(v ssa.Value) string { return fmt.Sprintf("%p", v) }
+
+func setAdd(set, id string) string {
+	parts := strings.Split(set, ",")
+	for _, p := range parts {
+		if p == id {
+			return set
+		}
+	}
+	if set == "" {
+		return id
+	}
+	parts = append(parts, id)
+	sort.Strings(parts)
+	return strings.Join(parts, ",")
+}
+
+func setDel(set, id string) string {
+	var out []string
+	for _, p := range strings.Split(set, ",") {
+		if p != id && p != "" {
+			out = append(out, p)
+		}
+	}
+	return strings.Join(out, ",")
+}
+
+func setHas(set, id string) bool {
+	for _, p := range strings.Split(set, ",") {
+		if p == id {
+			return true
+		}
+	}
+	return false
+}
+
+func (a authState) with(v ssa.Value) authState    { a.carriers = setAdd(a.carriers, valueID(v)); return a }
+func (a authState) without(v ssa.Value) authState { a.carriers = setDel(a.carriers, valueID(v)); return a }
+func (a authState) carries(v ssa.Value) bool      { return v != nil && setHas(a.carriers, valueID(v)) }
+func (a authState) delegate(v ssa.Value) authState {
+	a.helpers = setAdd(a.helpers, valueID(v))
+	return a
+}
+func (a authState) delegated(v ssa.Value) bool { return setHas(a.helpers, valueID(v)) }
+
+// ---- C18.legacy-selected: the MAC cannot choose between the two box formats ----------------------------
+
+func init() {
+	register(&Rule{Name: "C18.legacy-selected", Min: 1, Run: c18LegacySelected,
+		Doc: "decrypt returns what secretbox.Open produced only on paths where the message is short enough for both box formats to agree, or where the nonce derived from that message was computed for comparison with the object's nonce"})
+	byProp["C18"] = append(byProp["C18"], "C18.legacy-selected")
+	explain["C18"] += " legacy-selected: 'data written by the earlier hand-rolled box format remains readable' — the old format (crypto_secretbox_detached, still in the source) computes the same Poly1305 tag as secretbox over a ciphertext whose key stream restarts behind the first 32 bytes; authentication therefore succeeds for both formats and cannot select one: an old object longer than 32 bytes opens under secretbox.Open with a garbled tail and no error, and the fallback is never reached. The only discriminator is the nonce, which encrypt derives from message and key. On every path on which decrypt returns secretbox.Open's plaintext, either a length test bounds it to the 32 bytes on which the formats agree, or nonce() was applied to a value derived from that plaintext. Decided: that the discriminator is consulted; not its polarity, nor byte-level compatibility."
+}
+
+type legacyState struct{ confirmed, short bool }
+
+func (l legacyState) Key() string { return fmt.Sprintf("%v/%v", l.confirmed, l.short) }
+
+func c18LegacySelected(c *Ctx) {
+	const rule = "C18.legacy-selected"
+	fn := mustFunc(c, "kv", "", "decrypt")
+	nonceFn := mustFunc(c, "kv", "", "nonce")
+	if fn == nil || nonceFn == nil {
+		return
+	}
+	name := core.FuncName(fn)
+	c.R.SawFunc(name)
+	sc := c.Scope(fn)
+	// the plaintext of the standard open
+	var plain ssa.Value
+	for _, call := range an.Calls(fn) {
+		f := call.Common().StaticCallee()
+		if f != nil && an.PkgPathOf(f) == secretboxPkg && f.Name() == "Open" {
+			for _, r := range *call.Value().Referrers() {
+				if ex, ok := r.(*ssa.Extract); ok && ex.Index == 0 {
+					plain = ex
+				}
+			}
+		}
+	}
+	if plain == nil {
+		c.R.OK(rule, name+": the formats are told apart", c.P.Pos(fn.Pos()), "decrypt does not use secretbox.Open")
+		return
+	}
+	var fromPlain func(v ssa.Value, d int) bool
+	fromPlain = func(v ssa.Value, d int) bool {
+		hit := false
+		an.DependsOn(v, func(w ssa.Value) bool {
+			if w == plain {
+				hit = true
+			}
+			if p, ok := w.(*ssa.Parameter); ok && d < 4 {
+				if up := sc.ArgOfParam(p); up != ssa.Value(p) && fromPlain(up, d+1) {
+					hit = true
+				}
+			}
+			return false
+		})
+		return hit
+	}
+	h := an.THooks{}
+	h.Instr = func(in ssa.Instruction, st0 an.TState) an.TState {
+		st := st0.(legacyState)
+		if cl, ok := in.(*ssa.Call); ok && cl.Call.StaticCallee() == nonceFn {
+			for _, a := range cl.Call.Args {
+				if fromPlain(a, 0) {
+					st.confirmed = true
+				}
+			}
+		}
+		return st
+	}
+	h.Branch = func(iff *ssa.If, side bool, st0 an.TState) an.TState {
+		st := st0.(legacyState)
+		cond, neg := an.StripNot(iff.Cond)
+		bo, ok := cond.(*ssa.BinOp)
+		if !ok {
+			return st
+		}
+		lenOf := func(v ssa.Value) bool {
+			cl, ok := v.(*ssa.Call)
+			if !ok {
+				return false
+			}
+			bi, ok := cl.Call.Value.(*ssa.Builtin)
+			return ok && bi.Name() == "len" && an.Unwrap(cl.Call.Args[0]) == plain
+		}
+		k, isK := constInt(bo.Y)
+		if !lenOf(bo.X) || !isK {
+			return st
+		}
+		taken := side != neg // truth of the comparison on this side
+		bound := int64(1 << 40)
+		switch bo.Op {
+		case token.GTR: // len > k
+			if !taken {
+				bound = k
+			}
+		case token.GEQ:
+			if !taken {
+				bound = k - 1
+			}
+		case token.LEQ:
+			if taken {
+				bound = k
+			}
+		case token.LSS:
+			if taken {
+				bound = k - 1
+			}
+		}
+		if bound <= 32 {
+			st.short = true
+		}
+		return st
+	}
+	good, n := true, 0
+	why := ""
+	for _, ex := range an.WalkTypestate(fn, legacyState{}, h, sc) {
+		if ex.ErrNil == 0 || len(ex.Ret.Results) < 1 || an.Unwrap(ex.Ret.Results[0]) != plain {
+			continue
+		}
+		n++
+		st := ex.St.(legacyState)
+		if !st.confirmed && !st.short {
+			good = false
+			why = "decrypt returns secretbox.Open's plaintext at " + c.P.Pos(ex.Ret.Pos()) + " on a path with neither a bound of 32 bytes on its length nor a nonce derived from it: an object of the earlier format longer than 32 bytes authenticates here too (same tag) and is returned with a tail decrypted under the wrong key stream — garbled data, no error, and the fallback to the old implementation is unreachable for it"
+		}
+	}
+	if n == 0 {
+		c.R.Unk(rule, name+": the formats are told apart", c.P.Pos(fn.Pos()), "no path returns secretbox.Open's plaintext")
+		return
+	}
+	c.R.Cond(good, rule, name+": the formats are told apart", c.P.Pos(fn.Pos()), fmt.Sprintf("%d returning paths, each bounded to 32 bytes or confirmed by the derived nonce", n), why)
 }
